@@ -27,13 +27,11 @@ package hmac
 
 //@ func (*HMACStrategy).generateHMAC
 //@   requires c != nil && key != nil
-//@   modifies hash_data, is_hash, is_hmac, hmac_key, hmac_fn
 //@   ensures [C06.mac-is-hmac-of-data] result == hmacsum(hasher_of(c), key[:], bcat(nobytes(), data), nilbytes())
 
 // validate: accepted exactly when the token validates under this secret; a wrong MAC is ErrTokenSignatureMismatch.
 //@ func (*HMACStrategy).validate
 //@   requires c != nil
-//@   modifies hash_data, is_hash, is_hmac, hmac_key, hmac_fn
 //@   ensures [C06.mac-verified-in-full] (err == nil) == validates(c, secret, token)
 //@   ensures [C06.mismatch-classified] err != nil && len(secret) >= 32 && cut_ok(token, ".") && cut_before(token, ".") != "" && cut_after(token, ".") != "" && b64dec_ok(b64, cut_after(token, ".")) && b64dec_ok(b64, cut_before(token, ".")) ==> eis(err, fosite.ErrTokenSignatureMismatch)
 
@@ -45,7 +43,6 @@ package hmac
 // Validate: accepted only if the token validates under the configured global secret or one of the rotated secrets.
 //@ func (*HMACStrategy).Validate
 //@   requires c != nil
-//@   modifies hash_data, is_hash, is_hmac, hmac_key, hmac_fn
 //@   ensures [C06.accepted-only-if-authentic] err == nil ==> authentic(c, token)
 //@   invariant loop#1 [C06.accepted-only-if-authentic] $i <= len(keys) && ($i == 0 || err != nil) && (forall j int :: 0 <= j && j < len(keys) ==> (len(gsecret(c.Config)) > 0 && keys[j] == gsecret(c.Config)) || (exists k int :: 0 <= k && k < len(rsecrets(c.Config)) && keys[j] == rsecrets(c.Config)[k]))
 
@@ -53,7 +50,7 @@ package hmac
 // under the strategy's mutex and the mutex is released on every exit.
 //@ func (*HMACStrategy).Generate
 //@   requires c != nil && held[addr(c.Mutex)] == 0 && (forall m2 V :: held[m2] != 0 ==> mrank(m2) < mrank(addr(c.Mutex)))
-//@   modifies held, hash_data, is_hash, is_hmac, hmac_key, hmac_fn
+//@   modifies held
 //@   assume result2 == nil ==> result0 != "" && result1 != "" && result1 == hmacsig(result0) && authentic(c, result0)
 //@   assume result2 != nil ==> result0 == "" && result1 == ""
 //@   assert @call(RandomBytes)#1 [C19.hmac-generate-under-lock] held[addr(c.Mutex)] == 2
